@@ -334,6 +334,12 @@ class Sim:
                                              and not (type(exc).__name__ == "MemcacheError")))
             self.contacts[n].append((t, None if neutral else ok, c))      # c: the (sub-)call that made the contact
             if neutral:
+                # the server answered (with an error line): it was not failing at that moment.  Whether the library forgets
+                # an earlier failure now depends on the path (it does when it swallows the memcached error itself, as
+                # set_many under ignore_exc does; it does not when the error passes through as an exception) - the
+                # statement allows either, so the contact ends the run for the rate windows and is skipped (neither
+                # failure nor success) in the eviction evidence below
+                self.run[n] = []
                 continue
             if ok:
                 self.run[n] = []
